@@ -341,10 +341,13 @@ def vary_params(rng, op, solver, p_each=0.18):
             continue
         if rng.random() < p_each:
             op[k] = f2h(rng.choice(vals))
+    return fix_lipschitz_bounds(op, solver)
+
+
+def fix_lipschitz_bounds(op, solver=None):
+    """L_min ≤ L_max is a precondition of the library (`std::clamp(L, L_min, L_max)`): keep generated ops inside it."""
     if op.flt('Lmin', 1e-5) > op.flt('Lmax', 1e20):
-        op['Lmin'] = f2h(op.flt('Lmax', 1e20))
-        if solver == 'fista':
-            op['Lmin'] = f2h(1e-5)           # do not create the fixed-step mode by accident
+        op['Lmin'] = f2h(1e-5 if solver == 'fista' else op.flt('Lmax', 1e20))   # FISTA: L_min = L_max is the fixed-step mode
     return op
 
 
